@@ -337,7 +337,17 @@ def check(model, rep, tier):
     arg = core.norm(c.args[0]) if c.args else None
     ctx_forms = ("getattr(%s, 'ctx', None)" % arg, '%s.ctx' % arg)
     guarded = False
+    excluded = set()
+    flat = []
     for pol, tst in formula.path_condition(env_, c):
+      # a false disjunction makes every disjunct false, a true conjunction every
+      # conjunct true
+      if isinstance(tst, ast.BoolOp) and ((pol == 'F' and isinstance(tst.op, ast.Or)) or
+                                          (pol == 'T' and isinstance(tst.op, ast.And))):
+        flat.extend((pol, v_) for v_ in tst.values)
+      else:
+        flat.append((pol, tst))
+    for pol, tst in flat:
       if pol == 'C' or not (isinstance(tst, ast.Call) and core.dotted(tst.func) ==
                             'isinstance' and len(tst.args) == 2):
         continue
@@ -346,7 +356,9 @@ def check(model, rep, tier):
         continue
       kinds = {core.dotted(k).split('.')[-1] for k in (
           tst.args[1].elts if isinstance(tst.args[1], ast.Tuple) else [tst.args[1]])}
-      if (pol == 'F' and {'Store', 'Del'} <= kinds) or (pol == 'T' and kinds == {'Load'}):
+      if pol == 'F':
+        excluded |= kinds
+      if (pol == 'F' and {'Store', 'Del'} <= excluded) or (pol == 'T' and kinds == {'Load'}):
         guarded = True
     facts_t.append({'replaces': arg, 'guarded_by_ctx': guarded})
     okt = okt and guarded
@@ -364,9 +376,14 @@ def check(model, rep, tier):
   for c in repl:
     arg = core.norm(c.args[0]) if c.args else None
     slice_out = ext_out = False
+    flat_f = []
     for pol, tst in formula.path_condition(env_, c):
-      if pol != 'F':
-        continue
+      if pol == 'F' and isinstance(tst, ast.BoolOp) and isinstance(tst.op, ast.Or):
+        flat_f.extend(tst.values)
+      elif pol == 'F':
+        flat_f.append(tst)
+    for tst in flat_f:
+      pol = 'F'
       # (a false disjunction makes every disjunct false)
       for t_ in (tst.values if isinstance(tst, ast.BoolOp) and isinstance(
           tst.op, ast.Or) else [tst]):
@@ -538,7 +555,8 @@ def check(model, rep, tier):
               len(t.args) == 2 and core.norm(t.args[0]) == pn_:
             ks = t.args[1].elts if isinstance(t.args[1], ast.Tuple) else [t.args[1]]
             wrappers |= {(core.dotted(e) or '?').split('.')[-1] for e in ks}
-      if not wrappers or not wrappers <= {'keyword', 'Starred', 'withitem', 'Slice'}:
+      # (Tuple: the tuple of an extended slice is passed through like a slice)
+      if not wrappers or not wrappers <= {'keyword', 'Starred', 'withitem', 'Slice', 'Tuple'}:
         continue
       n_prop += 1
       callee = cls.methods.get(core.norm(c_.func)[5:])
